@@ -507,7 +507,7 @@ pub fn scenarios(thorough: bool) -> Vec<SubScenario> {
 pub fn check(rep: &Reporter) {
 	let thorough = rep.tier.thorough();
 	rep.set_rule(
-		"two subscriptions A, B and one pending call; server push sequences of length 1..3 (thorough 4) over {notification for A, for B, for an unknown subscription id, close/error notification for A, method notification, response to the pending call}, each delivered under every grouping into consecutive messages (single objects / arrays: all 2^(n-1) compositions), × buffer capacity {1,2} (thorough {1,2,3}) × 7 consumer scripts for A over {next, unsubscribe, drop} × numeric/string ids; for every scenario the complete tree of interleavings of deliveries and consumer actions is explored (DFS, no bound). Oracle: a bounded-queue reference model replayed over the execution's own trace (items, order, end of stream and its reason, number of unsubscribe requests naming A on the wire, the pending call's result).",
+		"two subscriptions A, B and one pending call; server push sequences of length 1..3 (thorough 4) over {notification for A, for B, for an unknown subscription id, close/error notification for A, method notification, response to the pending call}, each delivered under every grouping into consecutive messages (single objects / arrays: all 2^(n-1) compositions), × buffer capacity {1,2} (thorough {1,2,3}) × 7 consumer scripts for A over {next, unsubscribe, drop} × numeric/string ids; for every scenario the complete tree of interleavings of deliveries and consumer actions is explored (DFS, no bound). plus: a second subscribe call answered with the id of the live subscription (refused; the live stream keeps yielding exactly its own items; no unsubscribe goes out), all interleavings with three notifications. Oracle: a bounded-queue reference model replayed over the execution's own trace (items, order, end of stream and its reason, number of unsubscribe requests naming A on the wire, the pending call's result).",
 	);
 	rep.assume("the subscribe acknowledgements of the prelude are delivered without scheduling points; B's consumer is free-running");
 	let scen = scenarios(thorough);
@@ -522,10 +522,16 @@ pub fn check(rep: &Reporter) {
 	for s in backpressure_scenarios() {
 		sched::explore_auto(&s, rep, if thorough { 400_000 } else { 40_000 }, 3, 50, Duration::from_secs(if thorough { 120 } else { 10 }));
 	}
+	for s in dup_scenarios() {
+		sched::explore_auto(&s, rep, 100_000, 3, 20, Duration::from_secs(60));
+	}
 }
 
 pub fn dyn_scenarios() -> Vec<Box<dyn sched::DynScenario>> {
 	let mut v: Vec<Box<dyn sched::DynScenario>> = Vec::new();
+	for s in dup_scenarios() {
+		v.push(Box::new(s));
+	}
 	for s in scenarios(true) {
 		v.push(Box::new(s));
 	}
@@ -694,6 +700,177 @@ pub fn backpressure_scenarios() -> Vec<BackpressureScenario> {
 		for calls in [2usize, 3] {
 			for late_push in [false, true] {
 				v.push(BackpressureScenario { act, calls, late_push });
+			}
+		}
+	}
+	v
+}
+
+// ---------------------------------------------------------------------------------------------
+// A subscribe call answered with the id of a subscription that is live on the same connection: the call must be
+// refused and the live stream must go on yielding exactly its own notifications.
+
+pub struct DupIdScenario {
+	pub id_kind: IdKind,
+	pub numeric_sub_ids: bool,
+	/// the second caller drops whatever it got at its own scheduling point
+	pub drop_second: bool,
+}
+
+pub struct DupState {
+	shared: Arc<Shared>,
+	_client: Arc<Client>,
+	_keep: Arc<Mutex<Vec<Subscription<Value>>>>,
+}
+
+impl Scenario for DupIdScenario {
+	type State = DupState;
+	fn name(&self) -> String {
+		format!("cli_mem/duplicate-subscription-id:{:?}:{}:{}", self.id_kind, if self.numeric_sub_ids { "num" } else { "str" }, if self.drop_second { "drop-second" } else { "keep-second" })
+	}
+	fn config(&self) -> Value {
+		json!({"id_kind": format!("{:?}", self.id_kind), "numeric_subscription_ids": self.numeric_sub_ids, "second_handle_dropped": self.drop_second})
+	}
+	fn mask(&self) -> fn(&str) -> bool {
+		mask
+	}
+	fn setup(&self) -> DupState {
+		let shared = Arc::new(Shared {
+			rx_split: false,
+			sent: Default::default(),
+			send_calls: Default::default(),
+			fail_send_at: None,
+			wire_notify: Notify::new(),
+			rxq: Default::default(),
+			rx_notify: Notify::new(),
+			tx_closed: Default::default(),
+			tx_points: false,
+		});
+		let client: Client = ClientBuilder::default()
+			.request_timeout(Duration::from_secs(3600))
+			.max_buffer_capacity_per_subscription(8)
+			.id_format(self.id_kind)
+			.build_with_tokio(MockTx(shared.clone()), MockRx(shared.clone()));
+		let client = Arc::new(client);
+		let keep: Arc<Mutex<Vec<Subscription<Value>>>> = Arc::new(Mutex::new(Vec::new()));
+		let sid = if self.numeric_sub_ids { json!(11) } else { json!("SA") };
+		// responder: the first subscribe is acknowledged at once, the second one (same id!) at a scheduling point
+		{
+			let shared = shared.clone();
+			let sid = sid.clone();
+			tokio::spawn(async move {
+				let mut k = 0;
+				loop {
+					shared.wait_sent(k).await;
+					let m: Value = serde_json::from_str(&shared.sent_msg(k).unwrap()).unwrap_or(Value::Null);
+					if m["method"] == "sub" {
+						if m["params"] != json!([0]) {
+							sched::point("env:answer-second-subscribe-with-live-id").await;
+							sched::log("second-subscribe-answered");
+						}
+						shared.push_rx(Ok(ReceivedMessage::Text(json!({"jsonrpc":"2.0","id": m["id"], "result": sid}).to_string())));
+					}
+					k += 1;
+				}
+			});
+		}
+		{
+			let client = client.clone();
+			let shared = shared.clone();
+			let keep = keep.clone();
+			let drop_second = self.drop_second;
+			tokio::spawn(async move {
+				let mut sub_a: Subscription<Value> = client.subscribe("sub", rpc_params![0], "unsub").await.expect("subscribe A");
+				sched::log("ready");
+				// consumer A: free running
+				tokio::spawn(async move {
+					loop {
+						match sub_a.next().await {
+							Some(v) => sched::log(format!("A:item:{}", v.map(|x| x.to_string()).unwrap_or_else(|e| format!("decode:{e}")))),
+							None => {
+								sched::log("A:none");
+								std::future::pending::<()>().await;
+							}
+						}
+					}
+				});
+				// the second caller
+				{
+					let client = client.clone();
+					let keep = keep.clone();
+					tokio::spawn(async move {
+						sched::point("fe:second-subscribe").await;
+						match client.subscribe::<Value, _>("sub", rpc_params![1], "unsub").await {
+							Ok(mut s) => {
+								sched::log("second:ok");
+								if drop_second {
+									sched::point("fe:second-drop").await;
+									sched::log("second:dropped");
+									drop(s);
+								} else {
+									// a consumer that logs what the second handle yields
+									tokio::spawn(async move {
+										while let Some(v) = s.next().await {
+											sched::log(format!("second:item:{}", v.map(|x| x.to_string()).unwrap_or_default()));
+										}
+										sched::log("second:none");
+										std::future::pending::<()>().await;
+									});
+								}
+							}
+							Err(e) => sched::log(format!("second:err:{e:?}")),
+						}
+						let _ = keep;
+					});
+				}
+				// pusher: three notifications for the live id
+				for k in 1..=3 {
+					sched::point(format!("env:push:{k}")).await;
+					sched::log(format!("push:{k}"));
+					shared.push_rx(Ok(ReceivedMessage::Text(json!({"jsonrpc":"2.0","method":"n","params":{"subscription": sid, "result": format!("A{k}")}}).to_string())));
+				}
+			});
+		}
+		DupState { shared, _client: client, _keep: keep }
+	}
+	fn judge(&self, st: DupState, trace: &[String], panics: &[String], status: Status) -> Verdict {
+		let mut v: Vec<(String, String)> = Vec::new();
+		if status != Status::Quiescent {
+			v.push((format!("machinery:{status:?}"), format!("{status:?}")));
+		}
+		for p in panics {
+			v.push(("panic".into(), p.clone()));
+		}
+		let items: Vec<&String> = trace.iter().filter(|l| l.starts_with("A:")).collect();
+		let pushes = trace.iter().filter(|l| l.starts_with("push:")).count();
+		let expected: Vec<String> = (1..=pushes).map(|k| format!("A:item:\"A{k}\"")).collect();
+		if items.iter().map(|s| s.as_str()).collect::<Vec<_>>() != expected.iter().map(|s| s.as_str()).collect::<Vec<_>>() {
+			v.push((
+				"stream-A:differs:after-duplicate-id".into(),
+				format!("the live subscription's stream yielded {items:?} but the server sent {expected:?} for its id (a second subscribe call was answered with the same id)"),
+			));
+		}
+		if trace.iter().any(|l| l == "second:ok") {
+			v.push(("duplicate-subscription-id-accepted".into(), "a subscribe call answered with the id of a live subscription returned Ok: two handles now claim one id".into()));
+		}
+		if let Some(l) = trace.iter().find(|l| l.starts_with("second:item")) {
+			v.push(("stream-second:yields-foreign-items".into(), format!("the second handle yielded {l}, a notification of the first subscription")));
+		}
+		let unsubs = st.shared.sent.lock().unwrap().iter().filter(|m| m.contains("\"unsub\"")).count();
+		if unsubs > 0 {
+			v.push(("unsubscribe-for-live-subscription".into(), format!("{unsubs} unsubscribe request(s) were sent although the first subscription is alive and was never unsubscribed")));
+		}
+		let outcome: Vec<&String> = trace.iter().filter(|l| l.starts_with("A:") || l.starts_with("second:")).collect();
+		Verdict { violations: v, outcome: format!("{outcome:?}|unsubs={unsubs}") }
+	}
+}
+
+pub fn dup_scenarios() -> Vec<DupIdScenario> {
+	let mut v = Vec::new();
+	for id_kind in [IdKind::Number, IdKind::String] {
+		for numeric_sub_ids in [false, true] {
+			for drop_second in [false, true] {
+				v.push(DupIdScenario { id_kind, numeric_sub_ids, drop_second });
 			}
 		}
 	}
